@@ -908,13 +908,17 @@ returns it before `resolve_tlib_cells`: an instance node of cell type `K` means 
 `K` (prefix family, arity by connected pins; `dff`/`latch` kinds are state elements), pins numbered by the library `tl`.  For a
 library whose cells are the simulation primitives this is the function of the netlist; substitution of library cells is property
 C10 (`resolve_sem`).  `VModel tl ports stmts z neg prim a σ` (Model/VerilogSem.lean): `σ` gives every instance output what the
-instance computes from the signals on its input pins, every input port bit its assigned value, every undriven name `z`.
+instance computes from the signals and constants on its input pins, every input port bit its assigned value, every assign target
+the value of its source (`sigVal`: a signal's `σ`, or what a `__const<b>__` cell computes), every undriven name `z`.
 Fragment `verilogOKB` (decidable, spelled out in Model/VerilogSem.lean): declarations (any ranges / grouping / order / redundant
-wires), instantiations with named single-bit pins known to the library, input pins reading DRIVEN signals under the driver's
-name, all ports declared and all port declarations listed, outputs driven under their own name, pairwise different instance /
-port-bit / driven-signal (/ branch-fork) names, per instance pairwise different input pin indices; BOTH `branchforks` settings.
-NOT covered (oracle only): `assign` statements, constants on pins, concatenations / multi-bit pin connections, a 1-bit bus read by
-its base name, floating inputs, undriven outputs, positional pins. -/
+wires); instantiations with named single-bit pins known to the library, each input pin a constant bit `1'b0`/`1'b1` (its own
+`__const<b>_<k>__` cell and fork, numbered by `const_count`) or a DRIVEN signal under the driver's name; `assign` statements of any
+shape (widths, concatenations, selects, sized constants — what counts are the bit pairs) whose pairs are in dependency order: the
+target is not yet a fork, the source is a constant bit or already a fork (both variants of pass 1.5, `Cfg.assignFix`); all ports
+declared and all port declarations listed; outputs driven under their own name; cell names pairwise different; one line per fork
+/ cell pin (`nodupE` of the reader end points); per instance pairwise different input pin indices; BOTH `branchforks` settings.
+NOT covered (oracle only): multi-bit pin connections, a 1-bit bus read by its base name, floating inputs, undriven outputs,
+assign pairs out of dependency order or onto a driven target (findings D23/D24), positional pins. -/
 section ParsedSemVerilog
 open KV KV.Sig
 
@@ -923,9 +927,10 @@ theorem verilog_net_wf (cfg : Cfg) (tl : TL) (ports : List String) (stmts : List
   toNet_wf _ _
 
 /-- the circuit of a module of the fragment in closed form: its lines are, in creation order, one line per instance output
-connection (cell pin → fork of the driven signal), one per input port bit (cell → fork), one per instance input connection (fork of
-the signal → cell pin; with `branchforks` two lines through the fork `signal~inst/pin`), one per output port bit (fork → cell) —
-`vFlat`, each with the signal it carries -/
+connection (cell pin → fork of the driven signal), one per input port bit (cell → fork), one per assign pair (source fork →
+target fork, or a new constant cell → target fork), per instance input connection the line of its constant cell (if any) and the
+line fork → cell pin (with `branchforks` two lines through the fork `stem~inst/pin`), one per output port bit (fork → cell) —
+`vFlat`, each with the signal or constant it carries -/
 theorem verilog_lines (cfg : Cfg) (tl : TL) (ports : List String) (stmts : List Stmt) (hok : verilogOKB cfg tl ports stmts = true) :
     flatLines (module cfg tl ports stmts) = (vFlat cfg tl (sigDecls stmts) stmts).map (fun l => (l.d, l.r)) ∧
     (verilogNet cfg tl ports stmts).lines.size = (vSigs cfg tl stmts).length := by
@@ -952,30 +957,36 @@ theorem verilog_snodes (cfg : Cfg) (tl : TL) (ports : List String) (stmts : List
     simp [he]
 
 /-- **`verilog_parsed_sem`**: for every module of the fragment, every value domain, op algebra and assignment:
-(1) every model `σ` of the module induces a labelling of the lines consistent with the netlist (line `i` carries `σ` of the signal
-`vSigs[i]`: an instance output line its driven signal, a reader line — and both halves of a branch — the signal read);
+(1) every model `σ` of the module induces a labelling of the lines consistent with the netlist (line `i` carries `sigVal σ` of
+`vSigs[i]`: an instance output line its driven signal, an assign line its source, a reader line — and both halves of a branch,
+and the line of a constant cell — the signal or constant read);
 (2) every labelling consistent with the netlist is induced by a model; (3) one model per labelling. -/
 theorem verilog_parsed_sem {α : Type} (cfg : Cfg) (tl : TL) (ports : List String) (stmts : List Stmt)
     (hok : verilogOKB cfg tl ports stmts = true) (z : α) (neg : α → α) (prim : String → α → α → α → α → α) (a : Nat → α) :
-    (∀ σ, VModel tl ports stmts z neg prim a σ → NetLabelling (verilogNet cfg tl ports stmts) z neg prim a (vLabel cfg tl stmts σ)) ∧
+    (∀ σ, VModel tl ports stmts z neg prim a σ →
+      NetLabelling (verilogNet cfg tl ports stmts) z neg prim a (vLabel cfg tl stmts z prim σ)) ∧
     (∀ v, NetLabelling (verilogNet cfg tl ports stmts) z neg prim a v →
-      ∃ σ, VModel tl ports stmts z neg prim a σ ∧ ∀ i, i < (verilogNet cfg tl ports stmts).lines.size → v i = vLabel cfg tl stmts σ i) ∧
+      ∃ σ, VModel tl ports stmts z neg prim a σ ∧
+        ∀ i, i < (verilogNet cfg tl ports stmts).lines.size → v i = vLabel cfg tl stmts z prim σ i) ∧
     (∀ σ σ', VModel tl ports stmts z neg prim a σ → VModel tl ports stmts z neg prim a σ' →
-      (∀ i, i < (verilogNet cfg tl ports stmts).lines.size → vLabel cfg tl stmts σ i = vLabel cfg tl stmts σ' i) → σ = σ') := by
+      (∀ i, i < (verilogNet cfg tl ports stmts).lines.size → vLabel cfg tl stmts z prim σ i = vLabel cfg tl stmts z prim σ' i) →
+      σ = σ') := by
   have hok' := vok_of cfg tl ports stmts hok
   exact ⟨fun σ hm => v_model_labelling hok' z neg prim a σ hm, fun v hv => v_labelling_model hok' z neg prim a v hv,
     fun σ σ' h1 h2 h => v_model_unique hok' z neg prim a σ σ' h1 h2 h⟩
 
-theorem verilog_label_def {α : Type} (cfg : Cfg) (tl : TL) (stmts : List Stmt) (σ : String → α) (i : Nat) :
-    vLabel cfg tl stmts σ i = σ ((vSigs cfg tl stmts).getD i "") := rfl
+theorem verilog_label_def {α : Type} (cfg : Cfg) (tl : TL) (stmts : List Stmt) (z : α) (prim : String → α → α → α → α → α)
+    (σ : String → α) (i : Nat) :
+    vLabel cfg tl stmts z prim σ i = sigVal z prim σ ((vSigs cfg tl stmts).getD i "") := rfl
 
 /-- **what is observed**: under the labelling of `σ`, the value captured at `s_nodes` position `j` is `σ o` at an output port bit
-`o`, `σ d` at a state element whose input pin index 0 reads `d`, nothing at input ports -/
+`o`, the value of the signal or constant on input pin index 0 at a state element, nothing at input ports -/
 theorem verilog_captured {α : Type} (cfg : Cfg) (tl : TL) (ports : List String) (stmts : List Stmt)
-    (hok : verilogOKB cfg tl ports stmts = true) (z : α) (σ : String → α) :
-    ((verilogNet cfg tl ports stmts).sNodes.map fun n => ((verilogNet cfg tl ports stmts).node n).inPin 0 |>.map (vLabel cfg tl stmts σ)) =
-      vCaptures tl ports stmts σ :=
-  v_captures (vok_of cfg tl ports stmts hok) z σ
+    (hok : verilogOKB cfg tl ports stmts = true) (z : α) (prim : String → α → α → α → α → α) (σ : String → α) :
+    ((verilogNet cfg tl ports stmts).sNodes.map fun n =>
+        ((verilogNet cfg tl ports stmts).node n).inPin 0 |>.map (vLabel cfg tl stmts z prim σ)) =
+      vCaptures tl ports stmts z prim σ :=
+  v_captures (vok_of cfg tl ports stmts hok) z prim σ
 
 /-- the driver's acceptance check is sound: an accepted table IS a model -/
 theorem verilog_checker_sound {α : Type} [BEq α] [LawfulBEq α] (tl : TL) (ports : List String) (stmts : List Stmt) (z : α)
@@ -985,8 +996,8 @@ theorem verilog_checker_sound {α : Type} [BEq α] [LawfulBEq α] (tl : TL) (por
 
 /-- **`verilog_end_to_end`** (2-valued; composition with C01/C02): for every module of the fragment, every topological order of
 its net that schedules every line (`orderOKB`, `forksOKB`, `linesDrivenB`: decidable, evaluated by the driver on every real circuit
-and order) and every stimulus: exactly ONE model `σ`, the 2-valued `LogicSim` result is `σ` of the line's signal on every line, and
-what is captured at every interface position is what the module observes -/
+and order) and every stimulus: exactly ONE model `σ`, the 2-valued `LogicSim` result is the value of the line's signal on every
+line, and what is captured at every interface position is what the module observes -/
 theorem verilog_end_to_end (cfg : Cfg) (tl : TL) (ports : List String) (stmts : List Stmt) (hok : verilogOKB cfg tl ports stmts = true)
     (order : List Nat) (ho : orderOKB (verilogNet cfg tl ports stmts) order = true)
     (hfk : forksOKB (verilogNet cfg tl ports stmts) order = true)
@@ -996,10 +1007,11 @@ theorem verilog_end_to_end (cfg : Cfg) (tl : TL) (ports : List String) (stmts : 
       (∀ σ', VModel tl ports stmts (env (verilogNet cfg tl ports stmts).idx.zero) (!·) prim2
         (fun p => env ((verilogNet cfg tl ports stmts).idx.ppi + p)) σ' → σ' = σ) ∧
       (∀ i, i < (verilogNet cfg tl ports stmts).lines.size →
-        exec semL2n ((genOps Gen.kindPrefixes (verilogNet cfg tl ports stmts) order false).map OpRow.toOp) env i = vLabel cfg tl stmts σ i) ∧
+        exec semL2n ((genOps Gen.kindPrefixes (verilogNet cfg tl ports stmts) order false).map OpRow.toOp) env i =
+          vLabel cfg tl stmts (env (verilogNet cfg tl ports stmts).idx.zero) prim2 σ i) ∧
       ((verilogNet cfg tl ports stmts).sNodes.map fun n => ((verilogNet cfg tl ports stmts).node n).inPin 0 |>.map
         (exec semL2n ((genOps Gen.kindPrefixes (verilogNet cfg tl ports stmts) order false).map OpRow.toOp) env)) =
-          vCaptures tl ports stmts σ :=
+          vCaptures tl ports stmts (env (verilogNet cfg tl ports stmts).idx.zero) prim2 σ :=
   verilog_sim_generic (vok_of cfg tl ports stmts hok) semL2n specL2 (fun _ h xs => semL2n_eq_spec h xs) (!·) prim2 semSpec2
     order ho hfk hall env
 
@@ -1013,10 +1025,11 @@ theorem verilog_end_to_end8 (cfg : Cfg) (tl : TL) (ports : List String) (stmts :
       (∀ σ', VModel tl ports stmts (env (verilogNet cfg tl ports stmts).idx.zero) specNot prim8
         (fun p => env ((verilogNet cfg tl ports stmts).idx.ppi + p)) σ' → σ' = σ) ∧
       (∀ i, i < (verilogNet cfg tl ports stmts).lines.size →
-        exec semL8 ((genOps Gen.kindPrefixes (verilogNet cfg tl ports stmts) order false).map OpRow.toOp) env i = vLabel cfg tl stmts σ i) ∧
+        exec semL8 ((genOps Gen.kindPrefixes (verilogNet cfg tl ports stmts) order false).map OpRow.toOp) env i =
+          vLabel cfg tl stmts (env (verilogNet cfg tl ports stmts).idx.zero) prim8 σ i) ∧
       ((verilogNet cfg tl ports stmts).sNodes.map fun n => ((verilogNet cfg tl ports stmts).node n).inPin 0 |>.map
         (exec semL8 ((genOps Gen.kindPrefixes (verilogNet cfg tl ports stmts) order false).map OpRow.toOp) env)) =
-          vCaptures tl ports stmts σ :=
+          vCaptures tl ports stmts (env (verilogNet cfg tl ports stmts).idx.zero) prim8 σ :=
   verilog_sim_generic (vok_of cfg tl ports stmts hok) semL8 specL8 (fun _ h xs => semL8_eq_spec h xs) specNot prim8 semSpec8
     order ho hfk hall env
 
@@ -1029,34 +1042,43 @@ theorem verilog_text_to_net (cfg : Cfg) (tl : TL) (m : KV.VerilogText.VModule) (
   rw [verilog_text_to_netlist cfg tl m rs hv hr]
   rfl
 
-/-! ### non-vacuity: `module m(a, z); input a; output z; wire n; DFF_X1 f (.D(n), .Q(q), .QN(qn)); NAND2_X1 u1 (.A1(a), .A2(q), .ZN(n));
-INV_X1 u2 (.I(qn), .ZN(z)); endmodule` -/
+/-! ### non-vacuity: `module m(a, z, y); input a; output z, y; wire n; DFF_X1 f (.D(n), .Q(q), .QN(qn));
+NAND2_X1 u1 (.A1(a), .A2(1'b1), .ZN(n)); INV_X1 u2 (.I(qn), .ZN(w)); assign z = w; assign y = 1'b0; endmodule` -/
 def exTL2 : TL := fun k p =>
   if k == "DFF_X1" then (if p == "D" then some (0, false) else if p == "CK" then some (1, false) else if p == "Q" then some (0, true)
     else if p == "QN" then some (1, true) else none)
   else exTL k p
-def exV : List Stmt := [.decls [⟨.input, "a", none⟩], .decls [⟨.output, "z", none⟩], .decls [⟨.wire, "n", none⟩],
+def exV : List Stmt := [.decls [⟨.input, "a", none⟩], .decls [⟨.output, "z", none⟩, ⟨.output, "y", none⟩], .decls [⟨.wire, "n", none⟩],
   .inst "DFF_X1" "f" [("D", .one "n"), ("Q", .one "q"), ("QN", .one "qn")],
-  .inst "NAND2_X1" "u1" [("A1", .one "a"), ("A2", .one "q"), ("ZN", .one "n")],
-  .inst "INV_X1" "u2" [("I", .one "qn"), ("ZN", .one "z")]]
-/-- assignment: `a = 1` (position 0), state of `f` = 1 (position 2; position 1 is the output port) -/
-def exVA : Nat → Bool := fun p => p == 0 || p == 2
+  .inst "NAND2_X1" "u1" [("A1", .one "a"), ("A2", .one "1'b1"), ("ZN", .one "n")],
+  .inst "INV_X1" "u2" [("I", .one "qn"), ("ZN", .one "w")],
+  .assign ["z"] ["w"], .assign ["y"] ["1'b0"]]
+/-- assignment: `a = 1` (position 0), state of `f` = 1 (position 3; positions 1, 2 are the output ports) -/
+def exVA : Nat → Bool := fun p => p == 0 || p == 3
 
-example : verilogOKB {} exTL2 ["a", "z"] exV = true ∧ verilogOKB { bf := true } exTL2 ["a", "z"] exV = true ∧
-    (module {} exTL2 ["a", "z"] exV).err = false := by decide +kernel
-example : vSNames ["a", "z"] exV = [.cell "a" 0, .cell "z" 0, .cell "f" 0] ∧
-    vSigs {} exTL2 exV = ["q", "qn", "n", "z", "a", "n", "a", "q", "qn", "z"] ∧
-    vSigs { bf := true } exTL2 exV = ["q", "qn", "n", "z", "a", "n", "n", "a", "a", "q", "q", "qn", "qn", "z"] := by decide +kernel
-/-- the model: `q = 1`, `qn = 0` (state and its inversion), `n = NAND(1, 1) = 0`, `z = NOT(0) = 1`; observed: `z = 1`, next state `n = 0` -/
-example : vEval exTL2 ["a", "z"] exV false (!·) prim2 exVA = [("a", true), ("q", true), ("qn", false), ("n", false), ("z", true)] ∧
-    vModelB exTL2 ["a", "z"] exV false (!·) prim2 exVA (vEval exTL2 ["a", "z"] exV false (!·) prim2 exVA) = true ∧
-    vCaptures exTL2 ["a", "z"] exV (vEnvOf false (vEval exTL2 ["a", "z"] exV false (!·) prim2 exVA)) = [none, some true, some false] := by
+example : verilogOKB {} exTL2 ["a", "z", "y"] exV = true ∧ verilogOKB { bf := true } exTL2 ["a", "z", "y"] exV = true ∧
+    verilogOKB { assignFix := true } exTL2 ["a", "z", "y"] exV = true ∧ (module {} exTL2 ["a", "z", "y"] exV).err = false := by
   decide +kernel
-/-- the net (10 nodes) and an order satisfying the hypotheses of `verilog_end_to_end` -/
-example : (verilogNet {} exTL2 ["a", "z"] exV).io = [7, 9] ∧ (verilogNet {} exTL2 ["a", "z"] exV).sNodes = [7, 9, 0] ∧
-    orderOKB (verilogNet {} exTL2 ["a", "z"] exV) [7, 8, 0, 1, 2, 3, 4, 5, 6, 9] = true ∧
-    forksOKB (verilogNet {} exTL2 ["a", "z"] exV) [7, 8, 0, 1, 2, 3, 4, 5, 6, 9] = true ∧
-    linesDrivenB Gen.kindPrefixes (verilogNet {} exTL2 ["a", "z"] exV) [7, 8, 0, 1, 2, 3, 4, 5, 6, 9] = true := by decide +kernel
+example : vSNames ["a", "z", "y"] exV = [.cell "a" 0, .cell "z" 0, .cell "y" 0, .cell "f" 0] ∧
+    vSigs {} exTL2 exV = ["q", "qn", "n", "w", "a", "w", "1'b0", "n", "a", "1'b1", "1'b1", "qn", "z", "y"] := by decide +kernel
+/-- the lines of the two constants: the assign constant gets `__const0_0__`, the pin constant `__const1_1__` with its own fork -/
+example : (⟨.cell "__const0_0__" 0, .fork "y", none⟩ : LineM) ∈ (module {} exTL2 ["a", "z", "y"] exV).lines ∧
+    (⟨.cell "__const1_1__" 0, .fork "__const1_1__", none⟩ : LineM) ∈ (module {} exTL2 ["a", "z", "y"] exV).lines ∧
+    (⟨.fork "__const1_1__", .cell "u1" 1, none⟩ : LineM) ∈ (module {} exTL2 ["a", "z", "y"] exV).lines ∧
+    (⟨.fork "w", .fork "z", none⟩ : LineM) ∈ (module {} exTL2 ["a", "z", "y"] exV).lines := by decide +kernel
+/-- the model: `q = 1`, `qn = 0`, `n = NAND(1, 1) = 0`, `w = NOT(0) = 1`, `z = w = 1`, `y = 0`; observed: `z = 1`, `y = 0`, next state `n = 0` -/
+example : vEval exTL2 ["a", "z", "y"] exV false (!·) prim2 exVA =
+      [("a", true), ("q", true), ("qn", false), ("n", false), ("w", true), ("z", true), ("y", false)] ∧
+    vModelB exTL2 ["a", "z", "y"] exV false (!·) prim2 exVA (vEval exTL2 ["a", "z", "y"] exV false (!·) prim2 exVA) = true ∧
+    vCaptures exTL2 ["a", "z", "y"] exV false prim2 (vEnvOf false (vEval exTL2 ["a", "z", "y"] exV false (!·) prim2 exVA)) =
+      [none, some true, some false, some false] := by
+  decide +kernel
+/-- the net (16 nodes) and an order satisfying the hypotheses of `verilog_end_to_end` -/
+example : (verilogNet {} exTL2 ["a", "z", "y"] exV).io = [7, 9, 10] ∧ (verilogNet {} exTL2 ["a", "z", "y"] exV).sNodes = [7, 9, 10, 0] ∧
+    orderOKB (verilogNet {} exTL2 ["a", "z", "y"] exV) [7, 8, 0, 1, 2, 14, 15, 3, 4, 5, 6, 11, 12, 13, 9, 10] = true ∧
+    forksOKB (verilogNet {} exTL2 ["a", "z", "y"] exV) [7, 8, 0, 1, 2, 14, 15, 3, 4, 5, 6, 11, 12, 13, 9, 10] = true ∧
+    linesDrivenB Gen.kindPrefixes (verilogNet {} exTL2 ["a", "z", "y"] exV) [7, 8, 0, 1, 2, 14, 15, 3, 4, 5, 6, 11, 12, 13, 9, 10] = true := by
+  decide +kernel
 end ParsedSemVerilog
 
 end KV.C11
